@@ -395,6 +395,12 @@ class Check:
         self.cov["distribution"] = self.dist
         self.cov["known_findings_reproduced"] = sorted(self.known_hits)
         self.cov["failures_new"] = len(new)
+        # the evidence schema wants a boolean: a scoped statement ("all trees <= 9 nodes ...", per-stream flags)
+        # goes to exhaustive_scope, and `exhaustive` is true only when every listed stream was enumerated completely
+        ex = self.cov.get("exhaustive")
+        if ex is not None and not isinstance(ex, bool):
+            self.cov["exhaustive_scope"] = ex
+            self.cov["exhaustive"] = all(ex.values()) if isinstance(ex, dict) else False
         ev = {
             "property_id": self.pid, "tier": self.tier, "seed": self.seed, "level": self.level,
             "coverage": self.cov, "assumptions": self.assumptions,
